@@ -2,9 +2,7 @@
 C08 helper lemmas, part 4: on well-formed types the rule interpreter, at any fuel from the driver's bound
 `fuelFor a b` upwards, is the structured relation `Struct.sub`.
 -/
-import Verif.Model.Types.Wf
-import Verif.Proofs.SubStruct
-import Verif.Proofs.SubUnfoldP
+import Verif.Proofs.SubBase
 namespace Verif.Proofs.SubUnfold
 open Verif.Model.Types Verif.Model.Types.Struct Verif.Model.Auth
 
@@ -54,6 +52,12 @@ theorem chk_range (a t' : Ty) : chk a (.range t') = (match a with | .range t => 
 theorem chk_nilT (a : Ty) : chk a .nilT = false := by cases a <;> simp [chk]
 theorem chk_consT (a t r : Ty) : chk a (.consT t r) = false := by cases a <;> simp [chk]
 
+
+theorem subParams_nil_nil : subParams .nilT .nilT = true := by simp [subParams]
+theorem subParams_cons_cons (t r t' r' : Ty) :
+    subParams (.consT t r) (.consT t' r') = (Struct.sub t t' && subParams r r') := by simp [subParams]
+theorem subParams_nil_cons (t r : Ty) : subParams .nilT (.consT t r) = false := by simp [subParams]
+theorem subParams_cons_nil (t r : Ty) : subParams (.consT t r) .nilT = false := by simp [subParams]
 
 /-! ### simple sub type against simple super type -/
 
